@@ -31,7 +31,12 @@ CONSTANTS
    HeraldNs,      \* herald photon numbers tried
    Targets,       \* objects that construction calls may target
    AddPairs,      \* set of <<parent, sub>> pairs allowed for add
-   TmplLoss       \* TRUE: the templates contain a loss element
+   TmplLoss,      \* TRUE: the templates contain a loss element
+   Ordered,       \* TRUE: programs are generated in canonical stage order (cuts interleavings of independent calls)
+   MaxHer,        \* <<h1, h2, ...>> heralds declared per object
+   MaxAdds,       \* add calls per program
+   MaxComp,       \* plain component calls (bs, ps, loss, bar, swap, u) per program
+   RejLast        \* TRUE: a rejected call ends the program (a rejected call changes nothing, so nothing new follows it)
 
 VARIABLES circ, sem, prog, op
 vars == <<circ, sem, prog, op>>
@@ -57,13 +62,33 @@ Init == /\ circ \in InitCircs
 
 Live(o) == circ[o].nu >= 0
 RejCount == Len(SelectSeq(prog, LAMBDA e : e[1] = "rej"))
+\* canonical stage of a call in Scenario "tmpl": heralds on 3, heralds on 2, nesting add (2 <- 3), adds to the parent,
+\* probes on the parent, later edits of the sub-circuits
+StageOf(name, t, args) ==
+   IF name = "herald" THEN (IF t = 3 THEN 1 ELSE IF t = 2 THEN 2 ELSE 5)
+   ELSE IF name = "add" THEN (IF t = 1 THEN 4 ELSE 3)
+   ELSE IF name = "probeall" THEN 5
+   ELSE IF name = "edit" THEN 6
+   ELSE IF t = 1 THEN 5 ELSE 6
+StageOk(name, t, args) ==
+   IF ~Ordered \/ Len(prog) = 0 THEN TRUE
+   ELSE LET e == prog[Len(prog)] IN StageOf(e[2], e[3], <<>>) <= StageOf(name, t, args)
+NAdds == Len(SelectSeq(prog, LAMBDA e : e[2] = "add"))
+CompKinds == {"bs", "ps", "loss", "bar", "swap", "u"}
+NComp == Len(SelectSeq(prog, LAMBDA e : e[2] \in CompKinds))
 Accept(t, name, args, c2, M2) ==
+   /\ StageOk(name, t, args)
+   /\ (name = "herald" => Len(circ[t].hord) < MaxHer[t])
+   /\ (name = "add" => NAdds < MaxAdds)
+   /\ (name \in CompKinds => NComp < MaxComp)
    /\ circ' = [circ EXCEPT ![t] = c2]
    /\ sem' = [sem EXCEPT ![t] = IF Numeric THEN M2 ELSE <<>>]
    /\ prog' = Append(prog, <<"ok", name, t>> \o args)
    /\ op' = name
 Reject(t, name, args) ==
    /\ RejCount < MaxRej
+   /\ (name \in CompKinds => NComp < MaxComp)
+   /\ StageOk(name, t, args)
    /\ UNCHANGED <<circ, sem>>
    /\ prog' = Append(prog, <<"rej", name, t>> \o args)
    /\ op' = "rej"
@@ -126,6 +151,17 @@ DoCopy(t, s) ==
 DoUnpack(t) ==
    /\ Len(circ[t].anc) = 0
    /\ Accept(t, "unpack", <<>>, UnpackApply(circ[t], <<>>), sem[t])
+\* probe: a distinct phase on EVERY user mode of t (any mis-numbering of user modes after additions shows)
+ProbeOps(c) == [i \in 1..c.nu |-> OpPs(i, (2 * i + 1) % 8)]
+DoProbeAll(t) ==
+   /\ NAdds > 0 /\ ~ \E k \in 1..Len(prog) : prog[k][2] = "probeall"
+   /\ LET c2 == [circ[t] EXCEPT !.ops = @ \o ProbeOps(circ[t])] IN
+      Accept(t, "probeall", <<>>, c2, AppendOps(t, c2, ProbeOps(circ[t])))
+\* a later edit of a sub-circuit that was already added somewhere (the parent must not notice)
+DoEdit(t) ==
+   /\ \E k \in 1..Len(prog) : prog[k][2] = "add" /\ prog[k][4] = t
+   /\ ~ \E k \in 1..Len(prog) : prog[k][2] = "edit" /\ prog[k][3] = t
+   /\ LET c2 == PsApply(circ[t], 0, 2, 0) IN Accept(t, "edit", <<>>, c2, AppendOps(t, c2, <<OpPs(1, 2)>>))
 DoCompress(t) == Accept(t, "compress", <<>>, circ[t], sem[t])
 DoNonAdj(t)   == Accept(t, "nonadj", <<>>, circ[t], sem[t])
 
@@ -154,6 +190,7 @@ AddModes(nu) == GM(nu) \cup BM(nu)
 
 Next ==
    /\ Len(prog) < MaxLen
+   /\ (RejLast => op # "rej")
    /\ \E t \in Targets :
       /\ Live(t)
       /\ LET nu == circ[t].nu IN
@@ -169,6 +206,8 @@ Next ==
          \/ "unpack" \in Kinds /\ DoUnpack(t)
          \/ "compress" \in Kinds /\ DoCompress(t)
          \/ "nonadj" \in Kinds /\ DoNonAdj(t)
+         \/ "probeall" \in Kinds /\ DoProbeAll(t)
+         \/ "edit" \in Kinds /\ DoEdit(t)
          \/ "plus" \in Kinds /\ \E n \in Objs, b \in Objs : DoPlus(n, t, b)
          \/ "copy" \in Kinds /\ \E n \in Objs : DoCopy(n, t)
 Spec == Init /\ [][Next]_vars
@@ -179,6 +218,10 @@ UnitaryInv == Numeric => \A o \in Objs : Live(o) => IsUnitary(sem[o])
 DimInv == Numeric => \A o \in Objs : Live(o) => Len(sem[o]) = circ[o].nu + Len(circ[o].anc) + NLoss(circ[o].ops)
 \* the compositional (per-call) semantics is the flattened ordered product of the components
 SemAgrees == Numeric => \A o \in Objs : Live(o) => sem[o] = Sem(circ[o])
+\* the same three clauses as action properties on the object the step touched (cheaper in multi-object scopes)
+TgtP == prog'[Len(prog')][3]
+UnitaryStep == [][Numeric => IsUnitary(sem'[TgtP]) /\ Len(sem'[TgtP]) = DimL(circ'[TgtP])]_vars
+SemAgreesStep == [][Numeric => sem'[TgtP] = Sem(circ'[TgtP])]_vars
 \* C02 (ii): every ancilla carries one herald number (same at input and output by construction), and the
 \* user numbering never involves ancillas: ops appended by a call mention no ancilla that existed before it
 AncillaPrivate ==
@@ -186,7 +229,7 @@ AncillaPrivate ==
          LET old == circ[o]   new == circ'[o]
              added == IF Len(new.ops) >= Len(old.ops) /\ SubSeq(new.ops, 1, Len(old.ops)) = old.ops
                       THEN SubSeq(new.ops, Len(old.ops) + 1, Len(new.ops)) ELSE <<>>
-         IN (op' \in {"bs", "ps", "loss", "bar", "swap", "u", "add"}) =>
+         IN (op' \in {"bs", "ps", "loss", "bar", "swap", "u", "add", "probeall", "edit"}) =>
               /\ SubSeq(new.anc, 1, Len(old.anc)) = old.anc
               /\ LinesOf(added) \cap {Anc(j) : j \in 1..Len(old.anc)} = {}]_vars
 InputModesInv == \A o \in Objs : Live(o) => InputModes(circ[o]) >= 0 /\ Len(circ[o].hord) <= circ[o].nu
